@@ -46,7 +46,7 @@ def run(idx, rep, tier):
         in_run = fi.file == "csvpath/csvpath.py" or fi.file.startswith(("csvpath/matching/", "csvpath/scanning/", "csvpath/modes/"))
         if not in_run:
             continue
-        okr = fi.qual == "CsvPath.next" or (fi.cls == "CsvPath" and fi.name == "collecting")
+        okr = K.owner_of(idx, fi, {"CsvPath.next"}) is not None or (fi.cls == "CsvPath" and fi.name == "collecting")
         rep.check(okr, "R2", f"{fi.file}::{fi.qual} reads collecting", f"`{unparse(n)}`: only the generator's unmatched step may depend on whether the caller is collect(); "
                   "anything else makes collect(), next() and fast_forward() different runs", K.where(fi, n))
     rep.floor("R2", 1, "reads of collecting")
